@@ -219,7 +219,15 @@ def run(plan):
                              f"toggles {getattr(dev, 'toggles', 0)} for {' '.join(plan['settings'])}")
                 else:
                     diff = {k: (dev.state[k], exp[k]) for k in exp if dev.state[k] != exp[k]}
-                    if diff:
+                    if (set(diff) == {"fan"} and cfg.get("capabilities") and want_toggle == 1
+                            and before["fan"] not in (20, 40, 60, 80, 100, 102) and dev.state["fan"] == 102
+                            and not any(x[0] == "state" and x[1] == "fan" for x in effects)):
+                        # recorded known finding: with --capabilities and a unit that did not advertise custom fan
+                        # speeds, the forced refresh after the display toggle re-reads an unnamed fan speed as AUTO
+                        # and the following apply() writes AUTO although fan_speed was not on the command line
+                        res.fail("KF[toggle_reread_fan] unspecified fan speed rewritten as AUTO",
+                                 f"{' '.join(plan['settings'])}: (got, expected) {diff}")
+                    elif diff:
                         k0 = sorted(diff)[0]
                         res.fail(f"device state after the command differs from the documented meaning: {k0}",
                                  f"{' '.join(plan['settings'])}: (got, expected) {diff}")
@@ -276,9 +284,9 @@ def space(tier):
         if any(e[0] == "display" for e in effects) and rng.random() < 0.3:
             st = cfg["state"]
             cfg["remote_during_toggle"] = {k: (not st[k]) for k in rng.sample(["freeze", "eco", "sleep", "purifier", "power"], rng.randint(1, 2))}
-        if cfg["capabilities"] and any(e[0] != "state" for e in effects):
+        if cfg["capabilities"] and any(e[0] not in ("state", "display") for e in effects):
             cfg["capabilities"] = False      # keep property ids independent of a capability profile
-        elif cfg["capabilities"] or (all(e[0] == "state" for e in effects) and rng.random() < 0.2):
+        elif cfg["capabilities"] or (all(e[0] in ("state", "display") for e in effects) and rng.random() < 0.2):
             # --capabilities with a unit that does not advertise custom fan speeds (or anything about fan speeds)
             # while it runs at a speed without a name: what was not mentioned on the command line stays as reported
             cfg["capabilities"] = True
